@@ -100,9 +100,10 @@ def roundtrip(versions, shapes):
                 w.check(w.eq(P.snapshot(got), want), f"{name}: restored state differs")
                 for s in got.values():
                     d = s.__dict__
-                    w.check(len(d["new_state"]) == 0 and len(d["queue"]) == 0
-                            and d["reboot"] is False,
-                            f"{name}: transient state resurrected by a load")
+                    w.check(len(d["new_state"]) == 0 and len(d["queue"]) == 0,
+                            f"{name}: pending desired values / withheld replies resurrected by "
+                            "a load")
+                    w.check(w.eq(d["reboot"], False), f"{name}: reboot request resurrected by a load")
             w.check(w.eq(P.snapshot(via_json), P.snapshot(via_pickle)),
                     "json and pickle restore different states")
             w.goal("roundtrip")
